@@ -95,7 +95,11 @@ def instances(draw: Any, classes: tuple[str, ...] = CLASSES_ALL,
         room = max_items - total - (n_types - t - 1)
         mult = draw(st.integers(1, max(1, min(max_mult, room))))
         if cls == "nitems_edge" and t == 0:
-            mult = draw(st.integers(120, 130))
+            # 120..130 copies: n_items + 1 crosses the int8 limit; 250..262
+            # copies: repetition counts beyond 256 (uint8 / CPython's cached
+            # small integers)
+            mult = draw(st.one_of(st.integers(120, 130), st.integers(120, 130),
+                                  st.integers(250, 262)))
             w, h = min(w, 2), min(h, 2)
         items.append([w, h, mult])
         total += mult
